@@ -10,7 +10,7 @@ import ast
 from ..core import rule
 from ..engine import cfg as cfgmod, flow
 from ..engine.facts import dotted, const, src, walk_func, enclosing_stmt, ancestors
-from .common import calls, stmt_nodes, exc_successors, norm_successors, contains, is_subclass, param_default
+from .common import calls, stmt_nodes, exc_successors, norm_successors, contains, is_subclass, param_default, pn
 
 
 @rule("C14.failure-cleanup", min_instances=4)
@@ -37,7 +37,7 @@ def failure_cleanup(ctx):
                   "every exceptional path from Template(...) passes self._collection.pop(uri, ...)")
     for p in pops:
         if isinstance(p, ast.Call):
-            ctx.check(len(p.args) == 2 and src(p.args[0]) == "uri", "_load.pop-args", db.where(p),
+            ctx.check(len(p.args) == 2 and src(p.args[0]) == pn(fn, 2), "_load.pop-args", db.where(p),
                       "eviction is %s: must remove key `uri` and tolerate absence (the store may not have happened)" % src(p), "pop(uri, default)")
         # handler must re-raise: no normal exit reachable from pop without passing a raise
         for n in stmt_nodes(g, p):
@@ -80,8 +80,10 @@ def freshness_polarity(ctx):
     l, op, r = _norm_cmp(c)
     ifn = enclosing_stmt(c)
     ctx.require(isinstance(ifn, ast.If) and ifn.test is c, "freshness comparison is not the test of an if statement")
-    ret_cached = any(isinstance(s, ast.Return) and src(s.value) == "template" for s in ifn.body)
-    ret_cached_else = any(isinstance(s, ast.Return) and src(s.value) == "template" for s in ifn.orelse)
+    T_ = pn(ck, 2)
+    U_ = pn(ck, 1)
+    ret_cached = any(isinstance(s, ast.Return) and src(s.value) == T_ for s in ifn.body)
+    ret_cached_else = any(isinstance(s, ast.Return) and src(s.value) == T_ for s in ifn.orelse)
     mt = "ST_MTIME" in r or "st_mtime" in r or "getmtime" in r
     ctx.check(mt, "compare.mtime", db.where(c), "compile time is compared with %s, not the source's modification time" % r, "compared with %s" % r)
     # r must derive from os.stat(template.filename)
@@ -90,9 +92,9 @@ def freshness_polarity(ctx):
     stat_ok = False
     for nm in names:
         for d in rr.defs_at(ifn, nm):
-            if isinstance(d, ast.Assign) and "stat(template.filename)" in src(d.value).replace("os.", "").replace(" ", ""):
+            if isinstance(d, ast.Assign) and ("stat(%s.filename)" % T_) in src(d.value).replace("os.", "").replace(" ", ""):
                 stat_ok = True
-    if "stat(template.filename)" in src(c).replace("os.", ""):
+    if ("stat(%s.filename)" % T_) in src(c).replace("os.", ""):
         stat_ok = True
     ctx.check(stat_ok, "compare.stat-source", db.where(c), "mtime is not taken from os.stat(template.filename)", "mtime of template.filename")
     if ret_cached:
@@ -112,19 +114,19 @@ def freshness_polarity(ctx):
         p = g.path_avoiding(g.entry, lnodes, pops)
         ctx.check(p is None, "evict-before-reload", db.where(ld),
                   "stale template is reloaded without first being evicted: _load's second-chance read returns the stale object", "pop(uri) precedes _load on every path")
-        ctx.check(len(ld.args) == 2 and src(ld.args[1]) == "uri", "reload-same-uri", db.where(ld), "the stale template is reloaded under %s instead of the uri it was requested by: a template registered under an alias (put_template) vanishes from the lookup after its first refresh" % (src(ld.args[1]) if len(ld.args) > 1 else None), "reloaded under the requested uri")
-        ctx.check(src(ld.args[0]) == "template.filename", "reload-same-file", db.where(ld), "reloads %s" % src(ld.args[0]), "reloads template.filename")
+        ctx.check(len(ld.args) == 2 and src(ld.args[1]) == U_, "reload-same-uri", db.where(ld), "the stale template is reloaded under %s instead of the uri it was requested by: a template registered under an alias (put_template) vanishes from the lookup after its first refresh" % (src(ld.args[1]) if len(ld.args) > 1 else None), "reloaded under the requested uri")
+        ctx.check(src(ld.args[0]) == T_ + ".filename", "reload-same-file", db.where(ld), "reloads %s" % src(ld.args[0]), "reloads template.filename")
     # memory templates are never checked
     first = ck.body[0] if not isinstance(ck.body[0], ast.Expr) else ck.body[1]
-    ctx.check(isinstance(first, ast.If) and "template.filename is None" in src(first.test) and isinstance(first.body[0], ast.Return),
+    ctx.check(isinstance(first, ast.If) and (T_ + ".filename is None") in src(first.test) and isinstance(first.body[0], ast.Return),
               "memory-template", db.where(first), "put_string templates (filename None) are not returned unconditionally", "filename None -> return template")
     # filesystem_checks off => _check not reached
     gt = db.func("lookup.TemplateLookup.get_template")
     for cc in calls(gt, "self._check"):
         guarded = any(isinstance(a, ast.If) and src(a.test) == "self.filesystem_checks" and any(contains(b, cc) for b in a.body) for a in ancestors(cc))
         ctx.check(guarded, "filesystem_checks-guard", db.where(cc), "_check is called even when filesystem_checks is false", "only under `if self.filesystem_checks`")
-        ctx.check(len(cc.args) == 2 and src(cc.args[0]) == "uri" and src(cc.args[1]) == "self._collection[uri]", "check-args", db.where(cc), "checks %s" % src(cc), "checks the cached entry for the same uri")
-    others = [n for n in walk_func(gt) if isinstance(n, ast.Return) and src(n.value) == "self._collection[uri]"]
+        ctx.check(len(cc.args) == 2 and src(cc.args[0]) == pn(gt, 1) and src(cc.args[1]) == "self._collection[%s]" % pn(gt, 1), "check-args", db.where(cc), "checks %s" % src(cc), "checks the cached entry for the same uri")
+    others = [n for n in walk_func(gt) if isinstance(n, ast.Return) and src(n.value) == "self._collection[%s]" % pn(gt, 1)]
     ctx.check(bool(others), "no-check-return", db.where(gt), "no plain cached return for filesystem_checks=False", "returns self._collection[uri] unchecked when checks are off")
 
 
@@ -279,10 +281,10 @@ def collection_writers(ctx):
         tgt = s.targets[0]
         if isinstance(tgt, ast.Subscript) and (dotted(tgt.value) or "").endswith("._collection"):
             kw = {k.arg: k.value for k in s.value.keywords} if isinstance(s.value, ast.Call) else {}
-            ctx.check(src(tgt.slice) == "uri" and isinstance(s.value, ast.Call) and dotted(s.value.func) == "Template" and src(kw.get("uri")) == "uri" and s.value.args and src(s.value.args[0]) == "text",
+            ctx.check(src(tgt.slice) == pn(ps, 1) and isinstance(s.value, ast.Call) and dotted(s.value.func) == "Template" and src(kw.get("uri")) == pn(ps, 1) and s.value.args and src(s.value.args[0]) == pn(ps, 2),
                       "put_string", db.where(s), "put_string does not register Template(text, uri=uri) under uri", "Template(text, uri=uri) stored under uri")
     pt = db.func("lookup.TemplateLookup.put_template")
     for s in [x for x in walk_func(pt) if isinstance(x, ast.Assign)]:
         tgt = s.targets[0]
         if isinstance(tgt, ast.Subscript):
-            ctx.check(src(tgt.slice) == "uri" and src(s.value) == "template", "put_template", db.where(s), "put_template stores %s under %s" % (src(s.value), src(tgt.slice)), "stores the given template under uri")
+            ctx.check(src(tgt.slice) == pn(pt, 1) and src(s.value) == pn(pt, 2), "put_template", db.where(s), "put_template stores %s under %s" % (src(s.value), src(tgt.slice)), "stores the given template under uri")
